@@ -19,6 +19,7 @@ class Stream:
         self.default = default
         self.segs = list(segs or [])     # [(start_term, [values])]
         self._arr = None
+        self._hi = self._lo = None
         self.fn = z3.Function(name + '_f', z3.IntSort(), z3.IntSort()) \
             if default == 'free' else None
         self.reads = []                  # index terms read through fn
@@ -39,6 +40,7 @@ class Stream:
         return t
 
     def _cells_at(self, idx):
+        E = core.ENG
         if z3.is_int_value(idx):
             p = idx.as_long()
             v = self.cells.get(p)
@@ -47,18 +49,20 @@ class Stream:
                     return self._free(idx)
                 return z3.IntVal(self.default)
             return z3.IntVal(v) if isinstance(v, int) else v
-        if not self.cells:
-            if self.default == 'free':
-                return self._free(idx)
-            return z3.IntVal(self.default)
-        # symbolic position over concrete cells
         if self.default == 'free':
             res = self._free(idx)
         else:
             res = z3.IntVal(self.default)
-        # only cells the index can reach
+        if not self.cells:
+            return res
+        if self._hi is None:
+            self._hi = max(self.cells) + 1
+            self._lo = min(self.cells)
+        if E.valid(z3.Or(idx >= self._hi, idx < self._lo)):
+            return res
+        # symbolic position over concrete cells: only cells it can reach
         for p, v in self.cells.items():
-            if core.ENG.possible(idx == p):
+            if E.possible(idx == p):
                 res = z3.If(idx == p,
                             z3.IntVal(v) if isinstance(v, int) else v, res)
         return res
@@ -70,30 +74,38 @@ class Stream:
             return self._cells_at(idx)
         res = None
         pending = []
-        for start, vals in reversed(self.segs):
+
+        def val(v):
+            return z3.IntVal(v) if isinstance(v, int) else v
+
+        def chain(d, vals):
+            sel = val(vals[-1])
+            for k in range(len(vals) - 2, -1, -1):
+                sel = z3.If(d == k, val(vals[k]), sel)
+            return sel
+        for seg in reversed(self.segs):
+            start, vals = seg[0], seg[1]
+            lb = seg[2] if len(seg) > 2 else None
             d = z3.simplify(idx - start)
-            if not z3.is_int_value(d):
-                u = E.unique_value(d)
-                if u is not None:
-                    d = z3.IntVal(u)
             if z3.is_int_value(d):
                 k = d.as_long()
                 if 0 <= k < len(vals):
-                    v = vals[k]
-                    res = z3.IntVal(v) if isinstance(v, int) else v
+                    res = val(vals[k])
                     break
+                continue
+            if lb is not None and z3.is_int_value(idx) and \
+                    idx.as_long() < lb and E.valid(start >= lb):
                 continue
             inside = z3.And(d >= 0, d < len(vals))
             if E.valid(z3.Not(inside)):
                 continue
-            sel = z3.IntVal(0)
-            for k in range(len(vals) - 1, -1, -1):
-                v = vals[k]
-                sel = z3.If(d == k,
-                            z3.IntVal(v) if isinstance(v, int) else v, sel)
-            pending.append((inside, sel))
+            if E.valid(inside):
+                u = E.unique_value(d)
+                res = val(vals[u]) if u is not None else chain(d, vals)
+                break
+            pending.append((inside, chain(d, vals)))
         if res is None:
-            if not z3.is_int_value(idx):
+            if not z3.is_int_value(idx) and not pending:
                 u = E.unique_value(idx)
                 if u is not None:
                     idx = z3.IntVal(u)
@@ -101,6 +113,21 @@ class Stream:
         for inside, sel in reversed(pending):
             res = z3.If(inside, sel, res)
         return res
+
+    def extent(self, model):
+        """1 + the highest position that carries explicit content"""
+        def ev(t):
+            if isinstance(t, int):
+                return t
+            return model.eval(t, model_completion=True).as_long()
+        hi = 0
+        for idx in self.reads:
+            hi = max(hi, ev(idx) + 1)
+        if self.cells:
+            hi = max(hi, max(self.cells) + 1)
+        for seg in self.segs:
+            hi = max(hi, ev(seg[0]) + len(seg[1]))
+        return hi
 
     def concretize(self, model, n):
         """bytes of length n under `model` (unread free bytes are 0)"""
@@ -117,9 +144,9 @@ class Stream:
         for p, v in self.cells.items():
             if 0 <= p < n:
                 out[p] = ev(v) & 255
-        for start, vals in self.segs:
-            s = ev(start)
-            for k, v in enumerate(vals):
+        for seg in self.segs:
+            s = ev(seg[0])
+            for k, v in enumerate(seg[1]):
                 if 0 <= s + k < n:
                     out[s + k] = ev(v) & 255
         return bytes(out)
